@@ -57,7 +57,7 @@ def m_clone(tier):
                 OneHandle=True, srcs=["wrapper"], sinks=["drop", "push", "ext"], timeout=6000)
 def m_lazy(tier):
     # lazy clones of element references, removal handles and kept drained items; depth 1..3; 0..k consumptions; every sink
-    return dict(alpha=["push", "pop", "lazy", "drain", "keep", "hmutate", "mutate"], MaxLen=2, MaxLenB=1 if tier == "quick" else 2, MaxExt=1 if tier == "quick" else 2, MaxOut=1,
+    return dict(alpha=["push", "pop", "lazy", "drain", "keep", "hmutate", "mutate"], MaxLen=2, MaxLenB=1, MaxExt=1, MaxOut=1,      # (MaxLenB = 2 or MaxLen = 3 give 8-9 million transitions: too many to replay per configuration)
                 MaxLazyDepth=3, MaxLazyN=2 if tier == "quick" else 3, OneHandle=True, forms=["x..y"], srcs=["wrapper"], sinks=["drop"], timeout=6000)
 def m_clonefixed(tier):
     return dict(m_clone(tier), cfg="CfgFixed3", MaxLen=3, MaxLenB=3, MaxLazyDepth=1, MaxLazyN=2, alpha=["push", "pop", "clear", "clone", "ce_probe", "lazy"])
